@@ -134,7 +134,7 @@ class Cond:
         self.comp, self.key, self.tag, self.op, self.value = comp, key, tag, op, value
 
     def text(self):
-        return '%s %s "%s"' % (self.key, self.op, self.value.replace("\\", "\\\\") if False else self.value)
+        return '%s %s "%s"' % (self.key, self.op, self.value)
 
     # what the parser is expected to store
     def stored(self):
@@ -227,18 +227,17 @@ class Config:
         def block(chains, ind):
             for ch in chains:
                 for j, nd in enumerate(ch):
-                    head = ("else " if j else "") + (nd.cond.text() + " " if nd.cond else "")
-                    out.append(ind + head + "{")
+                    head = (nd.cond.text() + " " if nd.cond else "") + "{"
+                    if j == 0:
+                        out.append(ind + head)
+                    elif nd.idx % 2:
+                        out[-1] += " else " + head          # "} else ... {"
+                    else:
+                        out.append(ind + "else " + head)    # else on the next line
                     out.extend(ind + "  " + DIRECTIVES[d] % v for d, v in nd.dirs)
                     block(nd.chains, ind + "  ")
                     out.append(ind + "}")
-                    if j + 1 < len(ch):
-                        # `else` must follow the closing brace on the same logical line
-                        out[-1] += " "
-                        nxt = out.pop()
-                        out.append(nxt)
         block(self.chains, "")
-        # join "}" and following "else" (the grammar accepts EOL between them as well; use both)
         return "\n".join(out) + "\n"
 
     def tokens(self):
@@ -525,14 +524,13 @@ SMALL_ATTRS = [attr_tok("H", "h1"), attr_tok("H", "h2"), attr_tok("U", "/a.php")
 
 def small_lines(ctx, k, seqlen, variants):
     lines = []
-    rng = ctx.rng
-    for cfg in small_configs(k, rng, variants):
+    for cfg in small_configs(k, ctx.rng, variants):
+        remember(cfg)
         n = len(cfg.nodes)
         alpha = ["k,0,%d" % i for i in range(1, n)] + ["a,0," + a for a in SMALL_ATTRS] + ["z,0", "p,0,012"]
         first = "n,0,%s,%s" % (ALL, ";".join([attr_tok("H", "h2"), attr_tok("U", "/b"), attr_tok("C", "http")]))
         for seq in itertools.product(alpha, repeat=seqlen):
-            # keep sequences that end in an observation
-            if seq[-1][0] not in "kp":
+            if seq[-1][0] not in "kp":      # keep sequences that end in an observation
                 continue
             lines.append(make_line(cfg, [first] + list(seq)))
     return lines
@@ -550,18 +548,34 @@ def parse_line(line):
     return t[1], t[2:sep], t[sep + 1:]
 
 
-class RefTree:
-    """the tree as described by the node tokens, with the *source-level* conditions
-    recovered from the generated config (kept in _cfg_cache by the generator)"""
+def cfg_from_tokens(ntoks):
+    """reference tree rebuilt from the node tokens alone (used when replaying a line:
+    the stored, i.e. parser-simplified, conditions have the same meaning)"""
+    back = {"eq": "==", "ne": "!=", "re": "=~", "nr": "!~", "pr": "=^", "su": "=$"}
+    nodes = []
+    for t in ntoks[1:]:
+        par, prev, comp, cond, s, tag, extra, dirs = t.split(",")
+        ds = [tuple(int(x) for x in kv.split(".")) for kv in dirs.split("+")] if dirs != "-" else []
+        c = None if cond == "el" else Cond(comp, "", C.unhx(tag).decode("latin-1"), back[cond],
+                                           C.unhx(s).decode("latin-1"))
+        nd = Node(c, ds)
+        nd.parent, nd.prev = int(par), (None if prev == "-" else int(prev))
+        nodes.append(nd)
+    g = ntoks[0].split(",")[-1]
+    cfg = Config.__new__(Config)
+    cfg.gdirs = [tuple(int(x) for x in kv.split(".")) for kv in g.split("+")] if g != "-" else []
+    cfg.chains = []
+    cfg.nodes = [None] + nodes
+    for i, nd in enumerate(nodes):
+        nd.idx = i + 1
+    return cfg
 
 
 def oracle(line, out):
     if out in ("bad-op", "config-error", "<crash>"):
         return "harness rejected a generated case: " + out
     cfghex, ntoks, ops = parse_line(line)
-    cfg = _cfg_cache.get(cfghex)
-    if cfg is None:
-        return None
+    cfg = _cfg_cache.get(cfghex) or cfg_from_tokens(ntoks)
     o = out.split(" ")
     obs = o[o.index("/") + 1:]
     if len(obs) != len(ops):
@@ -693,15 +707,9 @@ def gen(ctx):
     quick = ctx.quick
     lines_small, lines_rand, lines_cidr = [], [], []
     # 1. exhaustive small scope
-    small = []
     for k, seqlen, variants in ([(1, 3, 3), (2, 3, 2), (3, 3, 1)] if quick else
                                 [(1, 4, 4), (2, 4, 2), (3, 4, 1), (4, 3, 1)]):
-        before = len(_cfg_cache)
-        for cfg in small_configs(k, rng, variants):
-            remember(cfg)
-        rng2 = rng
-        ls = small_lines_cached(ctx, k, seqlen, variants)
-        lines_small += ls
+        lines_small += small_lines(ctx, k, seqlen, variants)
     # 2. random larger trees, long op sequences
     nrand = 12000 if quick else 150000
     for _ in range(nrand):
@@ -766,22 +774,6 @@ def gen(ctx):
     return lines_small, lines_rand, lines_cidr
 
 
-def small_lines_cached(ctx, k, seqlen, variants):
-    lines = []
-    for cfg in list(_cfg_cache.values()):
-        if getattr(cfg, "_small_done", False) or len(cfg.nodes) != k + 1 or not getattr(cfg, "_small", True):
-            continue
-        cfg._small_done = True
-        n = len(cfg.nodes)
-        alpha = ["k,0,%d" % i for i in range(1, n)] + ["a,0," + a for a in SMALL_ATTRS] + ["z,0", "p,0,012"]
-        first = "n,0,%s,%s" % (ALL, ";".join([attr_tok("H", "h2"), attr_tok("U", "/b"), attr_tok("C", "http")]))
-        for seq in itertools.product(alpha, repeat=seqlen):
-            if seq[-1][0] not in "kp":
-                continue
-            lines.append(make_line(cfg, [first] + list(seq)))
-    return lines
-
-
 def run(ctx):
     exe, err = build()
     if exe is None:
@@ -819,7 +811,9 @@ def replay_line(ctx, rep):
     print("config:\n" + C.unhx(rep["input"].split(" ")[1]).decode("latin-1"))
     print("impl :", o, rc)
     print("model:", m)
-    if o != m or rc != 0:
+    v = oracle(rep["input"], o[0]) if o else "crash"
+    print("oracle:", v)
+    if v or o != m or rc != 0:
         print("VIOLATION property=%s replay=%s" % (ctx.pid, "(replayed)"))
         return 1
     return 0
